@@ -44,6 +44,14 @@ def _valid(framing, side, i):
     return adu.build(framing, UNIT, pdu.encode(m))
 
 
+def shortest(framing, side):
+    k = (framing, side, 'shortest')
+    if k not in _VC:
+        m = dict(kind='req', fc=7) if side == 'req' else dict(kind='rsp', fc=7, status=0x5A)
+        _VC[k] = adu.build(framing, UNIT, pdu.encode(m))
+    return _VC[k]
+
+
 def same(framing, side):
     k = (framing, side, 'same')
     if k not in _VC:
@@ -149,6 +157,8 @@ def _liveness(framing, side, snap, per_read, traffic, policy, WARM, backlog_boun
         maxbuf = max(maxbuf, len(fr._buffer))
     while fed < WARM:
         fs = [same(framing, side) if traffic == 'same' else valid(framing, side, i + k) for k in range(per_read)]
+        if traffic == 'short':          # the shortest valid frames of the protocol among the traffic
+            fs[0] = shortest(framing, side)
         i += per_read
         read(fs)
         fed += sum(len(f) for f in fs)
@@ -156,10 +166,15 @@ def _liveness(framing, side, snap, per_read, traffic, policy, WARM, backlog_boun
     expect = []
     for r in range(4):
         fs = [valid(framing, side, 1000 + r * per_read + k) for k in range(per_read)]
-        for j, f in enumerate(fs):
-            ek = (framing, side, 'exp', 1000 + r * per_read + j)
+        keys = [1000 + r * per_read + j for j in range(per_read)]
+        if traffic == 'short' and per_read > 1:
+            fs[0], keys[0] = shortest(framing, side), 'shortest'       # ... which must be delivered like any other
+        for key, f in zip(keys, fs):
+            ek = (framing, side, 'exp', key)
             if ek not in _VC:
                 _VC[ek] = framers.feed(framers.make(framing, side), f, [UNIT], False)[0]
+            if key == 'shortest':
+                continue            # delivered identically every time: counted below, not by identity
             expect.extend(_VC[ek])
         read(fs)
     tail = got[n0:]
@@ -167,6 +182,11 @@ def _liveness(framing, side, snap, per_read, traffic, policy, WARM, backlog_boun
         return 'reset-raises', 'resetFrame() itself raised %r with %d bytes buffered' % (reset_failed[0], len(fr._buffer))
     if backlog_bound and maxbuf >= WARM + one + 16:
         return 'backlog-unbounded', 'backlog reached %d bytes' % maxbuf
+    if traffic == 'short' and per_read > 1:
+        sk = (framing, side, 'exp', 'shortest')
+        n_short = sum(1 for x in tail if x in _VC[sk])
+        if n_short != 4 * len(_VC[sk]):
+            return 'late-or-lost', 'only %d of the 4 shortest valid frames fed after %d bytes of valid traffic were delivered' % (n_short, fed)
     missing = [e for e in expect if tail.count(e) == 0]
     dup = [e for e in expect if tail.count(e) > 1]
     if missing:
@@ -217,9 +237,9 @@ def explore(acc, framing, side, depth, reduced_from=2, part=0, parts=1):
                 fr = framers.restore(framing, side, cur)
                 framers.feed(fr, lst[idx][1], [UNIT], False)
                 cur = framers.snapshot(fr)
-        for per_read in (1, 2):
-            for traffic in ('same', 'alternating'):
-                for policy in ('raw', 'reset'):
+        for per_read, traffic, policy in [(p, t, y) for p in (1, 2) for t in ('same', 'alternating') for y in ('raw', 'reset')] + [(2, 'short', 'raw'), (1, 'short', 'reset')]:
+            if True:
+                if True:
                     acc.inc('obligations')
                     r = liveness(framing, side, s, per_read, traffic, policy)
                     if r:
